@@ -411,9 +411,9 @@ def build(recipe):
     return Builder(recipe).program()
 
 
-def compile_recipe(recipe, version, mode="app", scratch_slots=None, frame_pointers=None, assemble_constants=False):
-    opts = None
-    if scratch_slots is not None or frame_pointers is not None:
+def compile_recipe(recipe, version, mode="app", scratch_slots=None, frame_pointers=None, assemble_constants=False, optimize_obj=None):
+    opts = optimize_obj
+    if opts is None and (scratch_slots is not None or frame_pointers is not None):
         opts = pt.OptimizeOptions(scratch_slots=scratch_slots, frame_pointers=frame_pointers)
     m = pt.Mode.Application if mode == "app" else pt.Mode.Signature
     return pt.compileTeal(build(recipe), m, version=version, optimize=opts, assembleConstants=assemble_constants)
